@@ -20,7 +20,7 @@ CLAIMS = {
  "C03": ("Tie also symbolic: the relevant builders are traced on symbolic inputs and every traced entry is proved equal to the model's coefficient for all values (DESIGN 2.7). Theorems: stored boundary values (with_boundaries) satisfy a/h*(difference)+b*(average)=c face by face incl. 1/r, 1/(r sin theta); the solver's "
          "boundary rows encode the same relation; (a,b,c) scale invariance; periodic wrap and the exact residual of the solver's periodic rows "
          "(Props/C03.v); suites bc_ghost, bc_rows, solve, explicit on all classes; Robin-residual probes after the four operations; periodic axis "
-         "with unequal end cells is a known finding", "DESIGN.md 4 (C03)"),
+         "with unequal end cells is a known finding; the plot profile (plotprofile) is modelled (plot_profile), proved to report the face value that satisfies the configured relation (the Dirichlet value when a = 0) and tied to the code symbolically and numerically", "DESIGN.md 4 (C03)"),
  "C04": ("Tie also symbolic: the relevant builders are traced on symbolic inputs and every traced entry is proved equal to the model's coefficient for all values (DESIGN 2.7). Theorems over every solution of the assembled system: term order irrelevant, linear in the unknown, superposition in sources/boundary "
          "data/old values, terms never enter boundary rows (Props/C04.v); the solve suite evaluates the residual of the MODEL system inside Coq at "
          "the real solver's answer for random term lists; probes: identity of the returned object, external solver receives the identical system, "
